@@ -79,6 +79,8 @@ def logical_starts(frag: str):
         return [i for i in range(1, n + 1)]
     out = []
     fresh = True
+    lines = frag.split('\n')
+    last_end = 0
     for t in toks:
         if t.type in (tokenize.NL, tokenize.COMMENT, tokenize.INDENT, tokenize.DEDENT, tokenize.ENDMARKER):
             continue
@@ -86,8 +88,13 @@ def logical_starts(frag: str):
             fresh = True
             continue
         if fresh:
-            out.append(t.start[0])
+            ln = t.start[0]
+            # the logical line may begin on earlier physical lines that hold nothing but a continuation backslash
+            while ln - 1 > last_end and ln - 2 < len(lines) and lines[ln - 2].strip() == '\\':
+                ln -= 1
+            out.append(ln)
             fresh = False
+        last_end = t.end[0]
     return out
 
 
